@@ -59,7 +59,8 @@ def _cheap(line):
     if line.startswith("chk_leak") or len(line) > 220:
         return False
     op = line.split(" ", 2)
-    if op[0] in ("chk_it", "chk_alg", "chk_mx", "chk_pt", "chk_dm", "pt_search_by", "chk_hist", "chk_rows"):
+    if op[0] in ("chk_it", "chk_alg", "chk_mx", "chk_pt", "chk_dm", "pt_search_by", "chk_hist", "chk_rows",
+                 "chk_repoll", "chk_interleave", "chk_twice"):
         return "1099511627776]" not in line or True
     if op[0] == "chk_q":
         return op[1] in ("converse", "union", "is_tournament", "is_semicomplete", "johnson", "has_walk", "out_neighbors",
